@@ -20,10 +20,15 @@ pub struct OCase {
     pub fault: u8,
     /// make the account liquidatable first (crash collateral to this per-mille)
     pub crash_pm: u16,
+    /// operational state of the doctored bank when it is a collateral bank (which 0 / 2): 0 operational, 1 the admin
+    /// set it reduce-only after the positions were opened (its deposits "still count for liquidation purposes", so an
+    /// unusable oracle must still make every assessment fail)
+    #[serde(default)]
+    pub state: u8,
 }
 
 pub fn case_strategy() -> impl Strategy<Value = OCase> {
-    (prop::collection::vec(c04_bank_strategy_pub(), 3..=3), 1_000_000u64..1_000_000_000_000, 20_000u32..60_000, 0u8..3, 0u8..10, prop_oneof![Just(1000u16), 200u16..700]).prop_map(|(mut banks, collateral, borrow_frac, which, fault, crash_pm)| {
+    (prop::collection::vec(c04_bank_strategy_pub(), 3..=3), 1_000_000u64..1_000_000_000_000, 20_000u32..60_000, 0u8..3, 0u8..10, prop_oneof![Just(1000u16), 200u16..700], prop_oneof![3 => Just(0u8), 2 => Just(1u8)]).prop_map(|(mut banks, collateral, borrow_frac, which, fault, crash_pm, state)| {
         for b in banks.iter_mut() {
             b.init_limit = 0;
             b.emode_tag = 0;
@@ -41,7 +46,7 @@ pub fn case_strategy() -> impl Strategy<Value = OCase> {
                 b.oracle = OracleSpec::pyth(m, b.oracle.expo, (m as u64) / 200);
             }
         }
-        OCase { spec: WorldSpec { banks, n_users: 3, program_fees_enabled: false, ..WorldSpec::default() }, collateral, borrow_frac, which, fault, crash_pm }
+        OCase { spec: WorldSpec { banks, n_users: 3, program_fees_enabled: false, ..WorldSpec::default() }, collateral, borrow_frac, which, fault, crash_pm, state }
     })
 }
 
@@ -84,6 +89,7 @@ pub struct Stats {
     pub prepared: bool,
     pub baseline_ok: Vec<&'static str>,
     pub asserted: u64,
+    pub reduce_only: bool,
 }
 
 fn substitute_oracle(ix: &mut solana_program::instruction::Instruction, from: solana_program::pubkey::Pubkey, to: solana_program::pubkey::Pubkey) {
@@ -145,6 +151,15 @@ pub fn run_case(c: &OCase, stats: &mut Stats) -> Result<(), (String, String)> {
     }
     let rec = w.ix_init_liq_record(u.accts[0], l.auth);
     let _ = w.vm.exec(&rec);
+    if c.state == 1 && c.which != 1 {
+        let bi = if c.which == 0 { ab } else { cb };
+        let mut o = marginfi_type_crate::types::BankConfigOpt::default();
+        o.operational_state = Some(marginfi_type_crate::types::BankOperationalState::ReduceOnly);
+        if w.vm.exec(&w.ix_configure_bank(bi, o, w.roles.admin)).is_err() {
+            return Ok(());
+        }
+        stats.reduce_only = true;
+    }
     stats.prepared = true;
     // candidate instructions (built against the clean world)
     let small = (borrowed / 100).max(1);
@@ -164,6 +179,8 @@ pub fn run_case(c: &OCase, stats: &mut Stats) -> Result<(), (String, String)> {
                 w.ix_end_liquidation(u.accts[0], l.auth, risk.clone()),
             ],
         ),
+        // a bracket that seizes nothing (no instruction of it needs the collateral price for itself)
+        ("receivership-repay-only", vec![w.ix_start_liquidation(u.accts[0], l.auth), w.ix_repay(u.accts[0], l.auth, lb, l.tokens[lb], small, None), w.ix_end_liquidation(u.accts[0], l.auth, risk.clone())]),
     ];
     let mut base_ok: Vec<bool> = vec![];
     for (name, ixs) in &mk {
@@ -212,14 +229,14 @@ pub fn run_case(c: &OCase, stats: &mut Stats) -> Result<(), (String, String)> {
             // collateral oracle unusable: liquidation and bankruptcy assessments fail (they need the price);
             // the receivership start assesses maintenance health (fails); a zero/negative price can never
             // be used to seize collateral
-            ("liquidate", 0) | ("bankruptcy", 0) | ("receivership", 0) => unusable,
+            ("liquidate", 0) | ("bankruptcy", 0) | ("receivership", 0) | ("receivership-repay-only", 0) => unusable,
             // for borrowing purposes the collateral counts as worth nothing: this account's only
             // collateral is that bank, so no new borrow and no withdrawal with debt outstanding can pass
             ("borrow", 0) | ("withdraw", 0) => unusable,
             // a collateral bank the instruction does not transact in: the liquidatee's health cannot be
             // assessed, so every liquidation / bankruptcy assessment fails (borrow / withdraw may go on with
             // that collateral counted as nothing: no claim)
-            ("liquidate", 2) | ("bankruptcy", 2) | ("receivership", 2) => unusable,
+            ("liquidate", 2) | ("bankruptcy", 2) | ("receivership", 2) | ("receivership-repay-only", 2) => unusable,
             _ => false,
             }
         };
@@ -253,6 +270,9 @@ pub fn run(ctx: &Ctx) -> Report {
                 if st.prepared && !st.baseline_ok.is_empty() {
                     rep.nontrivial_case(&json!({"w": c.which, "f": c.fault, "c": c.crash_pm, "b": st.baseline_ok}));
                     rep.label(&format!("fault:{}:{}", c.which, c.fault));
+                    if st.reduce_only {
+                        rep.label("doctored-collateral-bank-reduce-only");
+                    }
                     if rep.samples.len() < 2 {
                         rep.sample(json!({"instruction_level": {"doctored": (["collateral", "debt", "other-collateral"][c.which as usize % 3]), "fault": c.fault, "baseline_ok": st.baseline_ok}}));
                     }
